@@ -134,6 +134,47 @@ fn retry_replay(a: &[&str]) -> String {
     format!("OK {}", log)
 }
 
+// retryhist <policy> <k> (<error kind> <db error kind> <idempotent 0|1> <consistency> <received> <required> <alive> <numfailures> <data_present> <write type> <db consistency>)*k:
+// the real policy's fresh session is fed the k failures in order
+fn retry_hist(a: &[&str]) -> String {
+    use scylla::policies::retry::*;
+    let pol = a[1];
+    let k: usize = a[2].parse().unwrap();
+    let mut session: Box<dyn RetrySession> = match pol {
+        "default" => DefaultRetryPolicy::new().new_session(),
+        "downgrading" => DowngradingConsistencyRetryPolicy::new().new_session(),
+        _ => FallthroughRetryPolicy::new().new_session(),
+    };
+    let bound = match pol { "default" => 2, "downgrading" => 1, _ => 0 };
+    let (mut same, mut same_rt, mut same_wt, mut next_unavail) = (0, 0, 0, 0);
+    let mut log = String::new();
+    for i in 0..k {
+        let b = 3 + 11 * i;
+        let f = Fields {
+            received: a[b + 4].parse().unwrap(), required: a[b + 5].parse().unwrap(), alive: a[b + 6].parse().unwrap(),
+            numfailures: a[b + 7].parse().unwrap(), data_present: a[b + 8] == "1", wt: a[b + 9].to_string(), cons: a[b + 10].to_string(),
+        };
+        let e = match attempt_error(a[b], a[b + 1], &f) {
+            Some(e) => e,
+            None => return "UNSUPPORTED error variant cannot be constructed natively".into(),
+        };
+        let d = session.decide_should_retry(RequestInfo::verif_new(&e, a[b + 2] == "1", consistency(a[b + 3])));
+        log.push_str(&format!("{:?};", d));
+        let is = |n: &str| a[b] == "DbError" && a[b + 1] == n;
+        if matches!(d, RetryDecision::RetrySameTarget(_)) {
+            same += 1;
+            if is("ReadTimeout") { same_rt += 1; }
+            if is("WriteTimeout") { same_wt += 1; }
+        }
+        if matches!(d, RetryDecision::RetryNextTarget(_)) && is("Unavailable") { next_unavail += 1; }
+    }
+    if same > bound || same_rt > 1 || same_wt > 1 || (pol == "default" && next_unavail > 1) {
+        return format!("VIOLATES one-shot retries repeated within one history (same-target {} of at most {}, after read timeout {}, after write timeout {}, unavailable->next {}): {}",
+                       same, bound, same_rt, same_wt, next_unavail, log);
+    }
+    format!("OK {}", log)
+}
+
 fn main() {
     std::panic::set_hook(Box::new(|_| {}));
     let stdin = std::io::stdin();
@@ -249,6 +290,7 @@ fn main() {
             // retry <policy> <err variant> <db variant> <idem 0/1> <req consistency> <f0> <f1> <f2>
             //       <received> <required> <alive> <numfailures> <data_present 0/1> <write type> <err consistency>
             "retry" => retry_replay(&a),
+            "retryhist" => retry_hist(&a),
             // keyspace <scalar value>*: validate the name made of these characters
             "keyspace" => {
                 let name: String = (1..a.len()).map(|i| char::from_u32(num(i) as u32).unwrap_or('?')).collect();
